@@ -5,6 +5,11 @@ package c13
 //   * probeCtx      the context handed to a caller; Done() evaluations are counted. A caller that arrives while a
 //                   download is blocked at the endpoint evaluates Done() for the first time in the select of
 //                   keysFromRemote, i.e. after it captured the in-flight download: "parked" is observable without a hook.
+//                   A probe may carry a deadline (Deadline() reports an instant that is fixed before the call starts). The
+//                   probe itself ends (Done() closed, Err() = DeadlineExceeded) only when the scheduler applies the event
+//                   "deadline of caller i passes", and that event first lets the reported instant go by (pauseUntil): the
+//                   caller sees what a timer-driven context shows (Done() closes at or after the instant), and whatever
+//                   the library derived from Deadline() with real timers has fired by then.
 //   * endpoint      the http.RoundTripper behind rp.NewRemoteKeySet's http.Client: logs every request, blocks it on the
 //                   phase gate (or the request context, like a real transport) and answers from the phase script.
 //   * tracer        the library instruments updateKeys with an OpenTelemetry span (public instrumentation); the harness
@@ -85,9 +90,18 @@ type probeCtx struct {
 	done      chan struct{}
 	err       error // guarded by w.mu
 	doneCalls int   // guarded by w.mu
+	// the deadline the context reports; guarded by w.mu, fixed before the call starts (a context's answer never changes)
+	hasDeadline   bool
+	deadline      time.Time
+	deadlineCalls int
 }
 
-func (p *probeCtx) Deadline() (time.Time, bool) { return time.Time{}, false }
+func (p *probeCtx) Deadline() (time.Time, bool) {
+	p.w.mu.Lock()
+	defer p.w.mu.Unlock()
+	p.deadlineCalls++
+	return p.deadline, p.hasDeadline
+}
 
 func (p *probeCtx) Done() <-chan struct{} {
 	p.w.mu.Lock()
@@ -118,6 +132,14 @@ func (p *probeCtx) cancelLocked() {
 	}
 }
 
+// expireLocked: the context ends because its deadline passed. w.mu must be held.
+func (p *probeCtx) expireLocked() {
+	if p.err == nil {
+		p.err = context.DeadlineExceeded
+		close(p.done)
+	}
+}
+
 // ---- world ---------------------------------------------------------------------------
 
 const (
@@ -135,6 +157,7 @@ type reqRT struct {
 	state    int
 	overlap  bool // arrived while another request was blocked
 	servedOK bool // a 200 response with a well-formed document was handed out
+	abortErr error // reqAborted: Err() of the request context
 }
 
 type callerRT struct {
@@ -160,6 +183,12 @@ type callerRT struct {
 	otherCancel  bool // another waiter's context was cancelled while this caller was parked
 	ownerCancel  bool // the context of the caller that started the download was cancelled while this caller was parked on it
 	doneAtPark   int  // Done() evaluations on the caller's context when the endpoint was released (self-test)
+	// deadline plans
+	expired        bool      // own context ended because its deadline passed (before the call or while waiting)
+	collateralHow  string    // how the context of caller `collateral` ended: "cancel" / "expire"
+	retAt          time.Time // wall clock right after the last call returned (t1 of the bracket for the caller's own deadline)
+	otherDeadline  bool      // the deadline of another waiter passed while this caller was parked
+	ownerDeadline  bool      // the deadline of the caller that started the download passed while this caller was parked on it
 }
 
 // self-test access to the world of the last case
@@ -231,6 +260,25 @@ func (w *world) await(pred func() bool) bool {
 		t.Stop()
 	}
 	return true
+}
+
+// pauseUntil (w.mu held) lets the wall clock reach the instant t; w.mu is released meanwhile, the world keeps running.
+// Nothing is decided by it: its only use is to let a deadline instant that the harness handed out go by before the
+// harness ends that context.
+func (w *world) pauseUntil(t time.Time) {
+	for {
+		d := time.Until(t)
+		if d <= 0 {
+			return
+		}
+		tm := time.AfterFunc(d, func() {
+			w.mu.Lock()
+			w.cond.Broadcast()
+			w.mu.Unlock()
+		})
+		w.cond.Wait()
+		tm.Stop()
+	}
 }
 
 func (w *world) blockedReqs() int {
@@ -365,6 +413,9 @@ func (e *endpoint) RoundTrip(req *http.Request) (*http.Response, error) {
 		if err == nil {
 			err = context.Canceled
 		}
+		w.mu.Lock()
+		r.abortErr = err
+		w.mu.Unlock()
 		finish(reqAborted, false, "aborted: "+err.Error())
 		return nil, err
 	}
